@@ -23,6 +23,8 @@ package input
 //@   ensures[every_line_once_in_order] calls(p.dispatcher.Dispatch) == linesFrom(old(calls(p.dispatcher.Dispatch)), c.ref, scanCount(c.ref))
 //@   ensures[scanner_error]  result.tag == scanErrTag(c.ref) && result.ref == scanErrRef(c.ref)
 //@   ensures[no_protocol_rejects] calls(p.dispatcher.IncNumInvalid) == old(calls(p.dispatcher.IncNumInvalid))
+//@   ensures[scanner_contract; C12; bounded] true
+//@   bounded TestBounded_plainFraming "audit of the assumed bufio.Scanner contract on the real Plain.Handle: 6 streams (CR/LF mixes, empty lines, unterminated last line, a 5000-byte line) x every cut position up to 40, 1-byte reads, data returned together with EOF"
 //@   loop 1:
 //@     invariant[progress] scanner != nil && scanner.src == c.ref && 0 <= scanner.pos && scanner.pos <= scanCount(c.ref) && p.dispatcher == old(p.dispatcher)
 //@     invariant[dispatched] calls(p.dispatcher.Dispatch) == linesFrom(old(calls(p.dispatcher.Dispatch)), c.ref, scanner.pos)
@@ -39,6 +41,8 @@ package input
 //@   modifies *
 //@   loop 2:
 //@     invariant[chunking; C13,C14] 0 <= lengthRead && lengthRead <= lengthTotal && 0 <= chunkLength && chunkLength <= lengthTotal && len(chunk) == chunkLength && r != nil && (lengthTotal == 0 || chunkLength > 0) && (lengthRead < lengthTotal || lengthTotal == 0)
+//@   ensures[same_datapoints_as_text; C13; bounded] true
+//@   bounded TestBounded_pickleEquivalence "frames produced by CPython's pickle, protocols 0-4, tuple/list items, names x timestamps {int, long, float, str} x values {int, negative int, long, float, str}, two frames per connection, four segmentations: dispatched lines equal the equivalent text lines; a structurally invalid item is counted invalid and nothing else changes"
 //@   loop 1:
 //@     invariant[handler; C13,C14] p.dispatcher != nil && r != nil
 //@   loop 3:
